@@ -8,7 +8,7 @@
     ([CRef]) or given by the harness ([CLit], for artifacts Refs.v has no
     reader for: the TXT register space). *)
 From Coq Require Import Strings.Byte.
-From CSS Require Import Lib.Base Lib.Cases Model.TPM Model.BootSim.
+From CSS Require Import Lib.Base Lib.Cases Model.TPM Model.BootSim Model.BootSimObjs.
 From CSS Require Model.Ranges Model.Refs.
 Module RF := CSS.Model.Refs.
 Module RG := CSS.Model.Ranges.
@@ -64,7 +64,8 @@ Record case := mkCase {
   c_start : Z;                              (* the TPM object of the boot: 0 NewTPM(); the object of earlier
                                                boots recycled with 1 Reset(), 2 DoNotUse_ResetNoInit(),
                                                3 DoNotUse_ResetNoInit() + SupportedAlgos restored *)
-  c_flow : list (list (item cref));
+  c_pool : list Z;                          (* the converter objects made so far on this platform: their algorithms *)
+  c_flow : list (list (item cref));         (* [d_conv = Some k]: converter object number k of [c_pool] *)
   c_pcrs : list (list (list Z));            (* TPM.PCRValues *)
   c_cmdlog : list cmd;                      (* TPM.CommandLog.Commands() *)
   c_evlog : list event;                     (* TPM.EventLog *)
@@ -127,15 +128,21 @@ Definition reuse_of (k : Z) : reuse :=
 (** The earlier boots of the object are not part of the case: the model claims
     that they do not matter ([recycle_start]), and the harness runs real earlier
     boots on the real object. *)
+(** The converter objects start with an empty running state: whatever earlier
+    conversions left in them does not matter ([oboot_is_boot] holds for every pool),
+    and the harness runs real earlier conversions on the real objects. *)
 Definition check (c : case) : bool :=
   let H := H_tbl (c_tbl c) in
-  let '(s, rss) := run_flow cref cbytes H (boot_start (reuse_of (c_start c))) (c_flow c) in
+  let '(o, rss) := oboot cref cbytes H (reuse_of (c_start c)) (map (fun a => mkHasher a []) (c_pool c)) [] (c_flow c) in
+  let s := o_sim o in
   let t := s_tpm s in
   let log := to_parsed (evlog t) in
   let '(ta, ra) := commands_apply H fresh (cmdlog t) in
   pcrs_eqb (pcrs t) (c_pcrs c)
   && list_eqb cmd_eqb (cmdlog t) (c_cmdlog c)
   && list_eqb ev_eqb (evlog t) (c_evlog c)
+  && list_eqb zlist_eqb (read_cdig o) (digests_of (c_cmdlog c))
+  && list_eqb zlist_eqb (read_edig o) (map ev_digest (c_evlog c))
   && list_eqb pair_eqb (map (meas_obs H) (s_meas s)) (c_meas c)
   && list_eqb (list_eqb Bool.eqb) (map (map is_issue) rss) (c_flags c)
   && list_match (fun o m => obs_match zlist_eqb o m) (c_replay c)
